@@ -218,6 +218,8 @@ impl Sem for DecSem {
                 let vs: Vec<(BigInt, u32)> = args.iter().map(|a| self.exact(a)).collect::<R<Vec<_>>>()?;
                 let mut acc = (BigInt::zero(), 0u32);
                 for v in &vs { let (p, q, s) = align(&acc, v); acc = (p.add(&q), s); }
+                // a mean whose sum leaves the format: the statements do not say whether the detour over the parts must succeed
+                if acc.0.abs().cmp(&dec_max().mul(&BigInt::pow10(acc.1))) == Ordering::Greater { return Err(Stop::Unspec("SumOutsideRange")); }
                 self.quotient(acc.0, BigInt::pow10(acc.1).mul(&BigInt::from_i128(vs.len() as i128)))
             }
             "Med" => {
@@ -230,14 +232,17 @@ impl Sem for DecSem {
                 }
             }
             "Sqrt" => { let x = self.f(&args[0])?; if x < 0.0 { return Err(Stop::Unspec("FunctionOutsideDomain")); } self.approx(x.sqrt()) }
-            "Ln" => { let x = self.f(&args[0])?; if x <= 0.0 { return Err(Stop::Unspec("FunctionOutsideDomain")); } self.approx(x.ln()) }
-            "Lb" => { let x = self.f(&args[0])?; if x <= 0.0 { return Err(Stop::Unspec("FunctionOutsideDomain")); } self.approx(x.log2()) }
+            // (the double of a Decimal next to 1 has lost what the logarithm is about: 1 + 2e-28 is 1.0)
+            "Ln" => { let x = self.f(&args[0])?; if x <= 0.0 { return Err(Stop::Unspec("FunctionOutsideDomain")); } if (x - 1.0).abs() < 1e-6 { return Err(Stop::Unspec("LogarithmNextToOne")); } self.approx(x.ln()) }
+            "Lb" => { let x = self.f(&args[0])?; if x <= 0.0 { return Err(Stop::Unspec("FunctionOutsideDomain")); } if (x - 1.0).abs() < 1e-6 { return Err(Stop::Unspec("LogarithmNextToOne")); } self.approx(x.log2()) }
             "Exp" => { let x = self.f(&args[0])?; if x < -60.0 { return Err(Stop::Unspec("ApproximateValueBelowResolution")); } self.approx(x.exp()) }
             "Exp2" => { let x = self.f(&args[0])?; if x < -90.0 { return Err(Stop::Unspec("ApproximateValueBelowResolution")); } self.approx(x.exp2()) }
             "Log" => { let (x, b) = (self.f(&args[0])?, self.f(&args[1])?);
-                       if x <= 0.0 || b <= 0.0 || b == 1.0 { return Err(Stop::Unspec("FunctionOutsideDomain")); } self.approx(x.ln() / b.ln()) }
+                       if x <= 0.0 || b <= 0.0 || b == 1.0 { return Err(Stop::Unspec("FunctionOutsideDomain")); }
+                       if (x - 1.0).abs() < 1e-6 || (b - 1.0).abs() < 1e-6 { return Err(Stop::Unspec("LogarithmNextToOne")); } self.approx(x.ln() / b.ln()) }
             "Root" => { let (n, x) = (self.f(&args[0])?, self.f(&args[1])?);
-                        if n == 0.0 || x < 0.0 || (x == 0.0 && n < 0.0) { return Err(Stop::Unspec("FunctionOutsideDomain")); } self.approx(x.powf(1.0 / n)) }
+                        if n == 0.0 || x < 0.0 || (x == 0.0 && n < 0.0) { return Err(Stop::Unspec("FunctionOutsideDomain")); }
+                        if n.abs() < 1e-6 { return Err(Stop::Unspec("HugeExponent")); } self.approx(x.powf(1.0 / n)) }
             "LambertW" => { let x = self.f(&args[0])?; let em1 = (-1.0f64).exp();
                             if x < -em1 { return Err(Stop::Unspec("LambertWBelowDomain")); }
                             if x < -em1 + 1e-3 { return Err(Stop::Unspec("LambertWNearBranchPoint")); }
